@@ -30,11 +30,24 @@ pub struct StreamSpec {
     pub eintr: EintrSpec,
     /// hard I/O error once this many bytes have been delivered / accepted
     pub error_at: Option<u64>,
+    /// shape of that error: 0 = `io::Error::new(Other, "text")` (custom payload), 1 = kind only
+    /// (`BrokenPipe` / `UnexpectedEof`, no payload), 2 = raw OS error (ENOSPC / EIO), 3 = the sink accepts
+    /// zero bytes (`Ok(0)`; a reader reports end of file instead)
+    #[serde(default)]
+    pub error_flavor: u8,
+}
+
+fn hard_error(flavor: u8, write: bool) -> io::Error {
+    match flavor {
+        1 => (if write { ErrorKind::BrokenPipe } else { ErrorKind::UnexpectedEof }).into(),
+        2 => io::Error::from_raw_os_error(if write { 28 } else { 5 }),
+        _ => io::Error::new(ErrorKind::Other, if write { "simulated write error" } else { "simulated read error" }),
+    }
 }
 
 impl StreamSpec {
     pub fn canonical() -> StreamSpec {
-        StreamSpec { chunks: ChunkSpec::Whole, eintr: EintrSpec::Never, error_at: None }
+        StreamSpec { chunks: ChunkSpec::Whole, eintr: EintrSpec::Never, error_at: None, error_flavor: 0 }
     }
     pub fn is_canonical(&self) -> bool {
         *self == StreamSpec::canonical()
@@ -117,6 +130,7 @@ pub struct SimReader {
     chunker: Chunker,
     intr: Interrupter,
     error_at: Option<u64>,
+    flavor: u8,
     pub log: std::rc::Rc<std::cell::RefCell<IoLog>>,
 }
 
@@ -129,6 +143,7 @@ impl SimReader {
             chunker: Chunker::new(&spec.chunks),
             intr: Interrupter::new(&spec.eintr),
             error_at: spec.error_at,
+            flavor: spec.error_flavor,
             log: Default::default(),
         }
     }
@@ -149,7 +164,11 @@ impl BufRead for SimReader {
         if let Some(k) = self.error_at {
             if self.pos as u64 >= k && self.pos == self.chunk_end {
                 self.log.borrow_mut().error_fired = true;
-                return Err(io::Error::new(ErrorKind::Other, "simulated read error"));
+                if self.flavor == 3 {
+                    // the stream simply ends here
+                    return Ok(&[]);
+                }
+                return Err(hard_error(self.flavor, false));
             }
         }
         if self.pos == self.chunk_end && self.pos < self.data.len() {
@@ -203,6 +222,7 @@ pub struct SimWriter {
     chunker: Chunker,
     intr: Interrupter,
     error_at: Option<u64>,
+    flavor: u8,
     pub log: IoLog,
     pub flushes: u32,
 }
@@ -214,6 +234,7 @@ impl SimWriter {
             chunker: Chunker::new(&spec.chunks),
             intr: Interrupter::new(&spec.eintr),
             error_at: spec.error_at,
+            flavor: spec.error_flavor,
             log: IoLog::default(),
             flushes: 0,
         }
@@ -237,7 +258,11 @@ impl Write for SimWriter {
             let room = (k as usize).saturating_sub(self.accepted.len());
             if room == 0 {
                 self.log.error_fired = true;
-                return Err(io::Error::new(ErrorKind::Other, "simulated write error"));
+                if self.flavor == 3 {
+                    // a full sink: accepts nothing (write_all turns this into WriteZero)
+                    return Ok(0);
+                }
+                return Err(hard_error(self.flavor, true));
             }
             avail = avail.min(room);
         }
